@@ -259,7 +259,9 @@ def bvalue_section(ker):
         for d in (0, 1):
             for stride in ((2, 3), (3, 1), (1, 2, 3), (3, 2, 1), 2):
                 ss = (stride, stride) if isinstance(stride, int) else stride
-                forms = []  # (the dispatcher kernels.cubic_bspline() raises TypeError on the current tree: defect reported to the lead)
+                forms = [("cubic_bspline", ker.cubic_bspline(stride if not isinstance(stride, int) else [stride, stride], derivative=d))]
+                if not isinstance(stride, int):
+                    forms.append(("cubic_bspline(*args)", ker.cubic_bspline(*stride, derivative=d)))
                 if len(ss) == 2:
                     forms.append(("cubic_bspline2d", ker.cubic_bspline2d(stride, derivative=d)))
                     if not isinstance(stride, int):
